@@ -227,7 +227,8 @@ bool isCellMLBasicReal(const std::string &candidate)
             if (beginsMinus) {
                 numbersOnlyCandidate.erase(0, 1);
             }
-            return std::all_of(numbersOnlyCandidate.begin(), numbersOnlyCandidate.end(), isEuropeanNumericCharacter);
+            return !numbersOnlyCandidate.empty()
+                   && std::all_of(numbersOnlyCandidate.begin(), numbersOnlyCandidate.end(), isEuropeanNumericCharacter);
         }
     }
     return false;
